@@ -74,7 +74,7 @@ CHECKS["C05"] = dict(
 CHECKS["C06"] = dict(
    category="translation_validation",
    text="Proven validator: validC06_sound shows that acceptance implies n+1 phases whose DEFINED sequence is within 1e-8 (spectral norm) of the original at every point of the circle, hence (validC06_coeff) coefficient-wise within 1e-8 for the true real coefficient vectors, every sin(phi'_k - phi_k) within 1e-7 of 0, and an even number of k with cos(phi'_k - phi_k) < 0 (the sign gauge). Each run does the round trip angseq(unitary_from_angles(phi)) for EVERY n = 1..32 with four interior patterns, special end phases and all sign patterns for small n; the literal coefficient-wise clause is re-checked in exact rationals on the library-built elements.",
-   note='''Trusted: Lean kernel + Mathlib, axioms propext/Classical.choice/Quot.sound, the compiled model driver executing the validator, the Python harness (float->Fraction, seed forcing by patching numpy.random.randint in the harness process, generators). ''' + "The coefficient-wise reading is machine-checked too (QSP/Properties/C06b.lean: coeff_le_sup by a finite DFT argument, validC06_coeff for the true real coefficients of both sequences); phase vectors are sampled within the stated family. The list glue of angseq's divide-and-conquer recursion is modelled (Model/Decomp.lean mergeAngles) and proved right for every pair of lists (QSP/Properties/C06c.lean: Ucirc(merge a b) = Ucirc a * Ucirc b, lengths add, the whole recursion tree angSeq_sound with decompose as an exact oracle); every recursion step of every run is compared with it exactly (about 6000 steps per quick run). decompose (least squares) and left_and_right_angles are oracles judged by the validator.",
+   note='''Trusted: Lean kernel + Mathlib, axioms propext/Classical.choice/Quot.sound, the compiled model driver executing the validator, the Python harness (float->Fraction, seed forcing by patching numpy.random.randint in the harness process, generators). ''' + "The coefficient-wise reading is machine-checked too (QSP/Properties/C06b.lean: coeff_le_sup by a finite DFT argument, validC06_coeff for the true real coefficients of both sequences); phase vectors are sampled within the stated family. The list glue of angseq's divide-and-conquer recursion is modelled (Model/Decomp.lean mergeAngles) and proved right for every pair of lists (QSP/Properties/C06c.lean: Ucirc(merge a b) = Ucirc a * Ucirc b, lengths add, the whole recursion tree angSeq_sound with decompose as an exact oracle); every recursion step of every run is compared with it exactly (about 6000 steps per quick run). The linear system each split solves is modelled as well (Model/LinSys.lean) and proved to mean what its docstring says (QSP/Properties/C06d.lean: M vec(l) = vec(l*g) as an exact identity with the model's LA.mul; the selected rows hold iff l(1) = Id and deg(l g) <= deg - ldeg), and is compared entry for entry on the first splits of every run. The least-squares solve itself (numpy.linalg.lstsq) and left_and_right_angles are oracles judged by the validator.",
    technique="Lean 4 proven validator for the round trip + exact coefficient comparison + glue correspondence",
    design="7/C06")
 CHECKS["C07"] = dict(
